@@ -380,7 +380,11 @@ impl<'ascent, 'grammar, W: Write>
         rust!(self.out, "let {}expected = alloc::vec![", self.prefix);
         for terminal in successful_terminals {
             // Try to avoid terminals escaping
-            rust!(self.out, "r###\"{}\"###.to_string(),", terminal);
+            rust!(
+                self.out,
+                "{}.to_string(),",
+                super::base::raw_string_literal(&terminal.to_string())
+            );
         }
         rust!(self.out, "];");
 
